@@ -40,6 +40,7 @@ StepFor(e) ==
     [] e.op = "union" -> UnionOf(e.i, e.j)
     [] e.op = "add" -> AddOf(e.i, e.j)
     [] e.op = "make_required" -> MakeRequiredOf(e.i)
+    [] e.op = "make_required_key" -> MakeRequiredKeyOf(e.i)
     [] e.op = "alias" -> AliasOf(e.i)
     [] e.op = "validate" -> ValidateOp(e.i, e.h)
     [] e.op = "represent" -> RepresentOp(e.i)
